@@ -437,7 +437,11 @@ def gen_life_program(rng):
             x, y = rng.choice(mts), rng.choice(mts)
             n = fresh("e")
             if rng.random() < 0.6:
-                lines.append(f"{n} = scf.if %cond -> ({MT}) {{\nscf.yield {x} : {MT}\n}} else {{\nscf.yield {y} : {MT}\n}}")
+                # optionally each branch also USES the buffer the other branch yields (a plain nested use of a buffer
+                # next to the terminator through which it escapes, in either visiting order of the use list)
+                ua = (use_text([(y, MT)]) + "\n") if rng.random() < 0.6 else ""
+                ub = (use_text([(x, MT)]) + "\n") if rng.random() < 0.6 else ""
+                lines.append(f"{n} = scf.if %cond -> ({MT}) {{\n{ua}scf.yield {x} : {MT}\n}} else {{\n{ub}scf.yield {y} : {MT}\n}}")
             else:
                 it = fresh("it")
                 yv = it if rng.random() < 0.5 else y
